@@ -33,14 +33,20 @@ def word_tokens(toks, kind, width, n):
     T = table_words(n)
     want_words = list(reversed(sym_words(n, "a")))
     if len(toks) != T:
-        return REFUTED, "%d tokens for %d words" % (len(toks), T)
+        if all(tk[0] == "fmt" for tk in toks) and len(toks) < T:
+            return REFUTED, "%d words are printed for a table of %d words" % (len(toks), T)
+        return UNDECIDED, "printer shape not recognised (%d tokens for %d words)" % (len(toks), T)
     for k, (tk, ww) in enumerate(zip(toks, want_words)):
         if tk[0] != "fmt":
             return REFUTED, "token %d is %r" % (k, tk[:2])
         _, kd, flags, w, v = tk
         if kd != kind:
             return REFUTED, "word %d is formatted with %s, expected %s" % (k, kd, kind)
+        if w is None and width > 1:
+            return REFUTED, "word %d is printed without a fixed width (leading zeros are lost)" % k
         if w is None or w.val is None:
+            if width == 1 and w is None:
+                continue
             return UNDECIDED, "width not concrete"
         if w.val != width:
             return REFUTED, "word %d is printed with width %d, expected %d" % (k, w.val, width)
